@@ -256,6 +256,22 @@ PROPS["C20"] = dict(
                "so TLC judges from outcome, post-state and the recorded set of callbacks that ran: exact dispatch, no cross-fire, fallback for "
                "matchers, unsupported-feature error without change for updates.",
 )
+PROPS["C11"] = dict(
+    title="the client is safe for concurrent use and its operations are atomic",
+    engine="conc",
+    quick=[dict(scenario="counter", seeds=2, g=6, n=6), dict(scenario="putonce", seeds=2, g=6, n=4), dict(scenario="mixed", seeds=3, g=5, n=8),
+           dict(scenario="lifecycle", seeds=3, g=5, n=8)],
+    thorough=[dict(scenario="counter", seeds=10, g=8, n=10), dict(scenario="putonce", seeds=10, g=8, n=6), dict(scenario="mixed", seeds=40, g=6, n=12),
+              dict(scenario="lifecycle", seeds=40, g=6, n=12)],
+    own=[],
+    design_ref="DESIGN.md 6 C11",
+    level_text="Seeded concurrent histories of both real clients (N concurrent ADD 1; racing attribute_not_exists puts; a random mix of data "
+               "operations; data operations racing with table management, clearing and failure toggles) are recorded under the Go race detector "
+               "with invocation / return stamps; TLC searches for a linearization of each history against MiniDyn.tla (violation of the invariant "
+               "= witness). A data race report, a Go fatal error, a hang, or a history TLC exhausts without witness is a violation. Schedules are "
+               "sampled by the Go scheduler, not enumerated (DESIGN.md 7).",
+    technique="TLA+ specification + TLC linearizability search over recorded concurrent histories of the real clients (TraceLin.tla), Go race detector as monitor",
+)
 
 # properties deliberately not claimed, with the reason (none so far: unbuilt ones get a work-in-progress reason)
 NOT_CLAIMED = {}
